@@ -25,8 +25,8 @@ theorem and_40_pos (b : UInt8) : (b.toNat &&& 0x40 > 0) ↔ 64 ≤ b.toNat % 128
 
 /-- One accumulation step: with `res < 2^shift` the `|`/`<<` is an addition. -/
 theorem or_shift (res x shift : Nat) (h : res < 2 ^ shift) :
-    res ||| (x <<< shift) = res + x * 2 ^ shift := by
-  rw [Nat.or_comm, ← Nat.shiftLeft_add_eq_or_of_lt h, Nat.shiftLeft_eq, Nat.add_comm]
+    res ||| (x <<< shift) = res + 2 ^ shift * x := by
+  rw [Nat.or_comm, ← Nat.shiftLeft_add_eq_or_of_lt h, Nat.shiftLeft_eq, Nat.add_comm, Nat.mul_comm]
 
 /-- The set of shifts that occur: `0, 7, …, 63`. -/
 def Sh (shift : Nat) : Prop := shift % 7 = 0 ∧ shift ≤ 63
@@ -42,9 +42,9 @@ theorem ulebLoop_cons (b : UInt8) (rest : Bytes) (res shift : Nat) (h : res < 2 
       if b.toNat < 128 then
         if shift + 7 > 64 ∧ b.toNat > 1 then .error .tooLarge
         else if shift + 7 > 7 ∧ b.toNat = 0 then .error .overlong
-        else .ok ((res + b.toNat % 128 * 2 ^ shift) % 2 ^ 64, rest)
+        else .ok ((res + 2 ^ shift * (b.toNat % 128)) % 2 ^ 64, rest)
       else if shift + 7 > 64 then .error .tooLarge
-      else ulebLoop rest ((res + b.toNat % 128 * 2 ^ shift) % 2 ^ 64) (shift + 7) := by
+      else ulebLoop rest ((res + 2 ^ shift * (b.toNat % 128)) % 2 ^ 64) (shift + 7) := by
   rw [ulebLoop]
   simp only [and_7f, and_80, or_shift _ _ _ h]
 
@@ -67,8 +67,8 @@ macro_rules
 
 /-- Generalised round trip. -/
 theorem ulebLoop_encode (n : Nat) : ∀ (res shift : Nat) (rest : Bytes), Sh shift →
-    res < 2 ^ shift → res + n * 2 ^ shift < 2 ^ 64 → (n ≠ 0 ∨ shift = 0) →
-    ulebLoop (ulebEncode n ++ rest) res shift = .ok (res + n * 2 ^ shift, rest) := by
+    res < 2 ^ shift → res + 2 ^ shift * n < 2 ^ 64 → (n ≠ 0 ∨ shift = 0) →
+    ulebLoop (ulebEncode n ++ rest) res shift = .ok (res + 2 ^ shift * n, rest) := by
   induction n using Nat.strongRecOn with
   | _ n ih =>
     intro res shift rest hs hr hb hz
@@ -90,5 +90,583 @@ theorem ulebLoop_encode (n : Nat) : ∀ (res shift : Nat) (rest : Bytes), Sh shi
         | (rw [Nat.mod_eq_of_lt (by omega),
             ih (n / 128) (by omega) _ _ rest hs' (by omega) (by omega) (by omega)]
            congr 2; omega)
+
+/-- 1. Round trip. -/
+theorem uleb64_encode (n : Nat) (hn : n < 2 ^ 64) (rest : Bytes) :
+    uleb64 (ulebEncode n ++ rest) = .ok (n, rest) := by
+  have := ulebLoop_encode n 0 0 rest (by unfold Sh; omega) (by omega) (by omega) (Or.inr rfl)
+  simpa [uleb64] using this
+
+/-- Generalised canonicity: a successful read consumed exactly the encoding of what it added. -/
+theorem ulebLoop_canonical (bs : Bytes) : ∀ (res shift v : Nat) (rest : Bytes), Sh shift →
+    res < 2 ^ shift → ulebLoop bs res shift = .ok (v, rest) →
+    ∃ n, v = res + 2 ^ shift * n ∧ v < 2 ^ 64 ∧ bs = ulebEncode n ++ rest ∧ (shift = 0 ∨ n ≠ 0) := by
+  induction bs with
+  | nil => intro res shift v rest _ _ h; simp [ulebLoop] at h
+  | cons b bs ih =>
+    intro res shift v rest hs hr h
+    rw [ulebLoop_cons _ _ _ _ hr] at h
+    by_cases hb : b.toNat < 128
+    · rw [if_pos hb] at h
+      split at h
+      · cases h
+      · split at h
+        · cases h
+        · rename_i h1 h2
+          simp only [Except.ok.injEq, Prod.mk.injEq] at h
+          obtain ⟨rfl, rfl⟩ := h
+          refine ⟨b.toNat, ?_, Nat.mod_lt _ (by omega), ?_, ?_⟩
+          · sh_cases hs <;> omega
+          · rw [ulebEncode_lt hb, UInt8.ofNat_toNat]; rfl
+          · omega
+    · rw [if_neg hb] at h
+      split at h
+      · cases h
+      · rename_i h64
+        have hs' : Sh (shift + 7) := by unfold Sh at hs ⊢; omega
+        have hlt : res + 2 ^ shift * (b.toNat % 128) < 2 ^ (shift + 7) := by
+          sh_cases hs <;> omega
+        have hmod : (res + 2 ^ shift * (b.toNat % 128)) % 2 ^ 64
+            = res + 2 ^ shift * (b.toNat % 128) := by
+          apply Nat.mod_eq_of_lt
+          sh_cases hs <;> omega
+        rw [hmod] at h
+        obtain ⟨m, hv, hv64, hbs, hm⟩ := ih _ _ _ _ hs' hlt h
+        have hm0 : m ≠ 0 := by omega
+        have hb256 := b.toNat_lt
+        refine ⟨b.toNat % 128 + 128 * m, ?_, hv64, ?_, Or.inr (by omega)⟩
+        · rw [hv]; sh_cases hs <;> omega
+        · have e1 : (b.toNat % 128 + 128 * m) % 128 + 128 = b.toNat := by omega
+          have e2 : (b.toNat % 128 + 128 * m) / 128 = m := by omega
+          rw [ulebEncode_ge (by omega), e1, e2, UInt8.ofNat_toNat, hbs]; rfl
+
+/-- 2. Canonicity: only the writer's output is accepted. -/
+theorem uleb64_canonical (bs rest : Bytes) (n : Nat) (h : uleb64 bs = .ok (n, rest)) :
+    n < 2 ^ 64 ∧ bs = ulebEncode n ++ rest := by
+  obtain ⟨m, hv, hlt, hbs, _⟩ :=
+    ulebLoop_canonical bs 0 0 n rest (by unfold Sh; omega) (by omega) h
+  have : n = m := by omega
+  subst this
+  exact ⟨hlt, hbs⟩
+
+theorem ulebLoop_nil (res shift : Nat) : ulebLoop [] res shift = .error .incomplete := by
+  rw [ulebLoop]
+
+/-- Generalised prefix incompleteness. -/
+theorem ulebLoop_prefix (n : Nat) : ∀ (res shift k : Nat), Sh shift →
+    res < 2 ^ shift → res + 2 ^ shift * n < 2 ^ 64 → k < (ulebEncode n).length →
+    ulebLoop ((ulebEncode n).take k) res shift = .error .incomplete := by
+  induction n using Nat.strongRecOn with
+  | _ n ih =>
+    intro res shift k hs hr hb hk
+    by_cases hn : n < 128
+    · rw [ulebEncode_lt hn] at hk ⊢
+      have : k = 0 := by simpa using hk
+      subst this
+      exact ulebLoop_nil _ _
+    · rw [ulebEncode_ge hn] at hk ⊢
+      cases k with
+      | zero => exact ulebLoop_nil _ _
+      | succ k =>
+        have h56 : shift ≤ 56 := by sh_cases hs <;> omega
+        have hs' : Sh (shift + 7) := by unfold Sh at hs ⊢; omega
+        have e1 : (n % 128 + 128) % 128 = n % 128 := by omega
+        rw [List.take_succ_cons, ulebLoop_cons _ _ _ _ hr, toNat_ofNat_lt (by omega),
+          if_neg (by omega), if_neg (by omega), e1]
+        have hk' : k < (ulebEncode (n / 128)).length := by simpa using hk
+        sh_cases hs
+        all_goals first
+          | omega
+          | (rw [Nat.mod_eq_of_lt (by omega)]
+             exact ih (n / 128) (by omega) _ _ _ hs' (by omega) (by omega) hk')
+
+/-- 3. Every proper prefix of an encoding is `Incomplete`. -/
+theorem uleb64_prefix_incomplete (n : Nat) (hn : n < 2 ^ 64) (k : Nat)
+    (hk : k < (ulebEncode n).length) :
+    uleb64 ((ulebEncode n).take k) = .error .incomplete :=
+  ulebLoop_prefix n 0 0 k (by unfold Sh; omega) (by omega) (by omega) hk
+
+theorem ulebEncode_length_pos (n : Nat) : 1 ≤ (ulebEncode n).length := by
+  by_cases hn : n < 128
+  · rw [ulebEncode_lt hn]; simp
+  · rw [ulebEncode_ge hn]; simp
+
+theorem ulebEncode_length_le_of_lt (k : Nat) : ∀ n, n < 2 ^ (7 * (k + 1)) →
+    (ulebEncode n).length ≤ k + 1 := by
+  induction k with
+  | zero =>
+    intro n hn
+    rw [ulebEncode_lt (by omega)]; simp
+  | succ k ih =>
+    intro n hn
+    by_cases h : n < 128
+    · rw [ulebEncode_lt h]; simp
+    · rw [ulebEncode_ge h, List.length_cons]
+      have e : 2 ^ (7 * (k + 1 + 1)) = 2 ^ (7 * (k + 1)) * 128 := by
+        rw [show 7 * (k + 1 + 1) = 7 * (k + 1) + 7 by omega, Nat.pow_add]
+      have := ih (n / 128) (by rw [e] at hn; exact Nat.div_lt_of_lt_mul (by rw [Nat.mul_comm]; exact hn))
+      omega
+
+/-- 5. Encodings of `u64` values are 1 to 10 bytes long. -/
+theorem ulebEncode_length_le (n : Nat) (hn : n < 2 ^ 64) :
+    1 ≤ (ulebEncode n).length ∧ (ulebEncode n).length ≤ 10 :=
+  ⟨ulebEncode_length_pos n, ulebEncode_length_le_of_lt 9 n (by omega)⟩
+
+/-- 4. Progress, precise form. -/
+theorem uleb64_consumes_pre (bs rest : Bytes) (n : Nat) (h : uleb64 bs = .ok (n, rest)) :
+    ∃ pre, bs = pre ++ rest ∧ 1 ≤ pre.length ∧ pre.length ≤ 10 := by
+  obtain ⟨hn, hbs⟩ := uleb64_canonical bs rest n h
+  exact ⟨ulebEncode n, hbs, ulebEncode_length_le n hn⟩
+
+/-- 4. Progress. -/
+theorem uleb64_consumes (bs rest : Bytes) (n : Nat) (h : uleb64 bs = .ok (n, rest)) :
+    rest.length < bs.length := by
+  obtain ⟨pre, rfl, h1, _⟩ := uleb64_consumes_pre bs rest n h
+  rw [List.length_append]; omega
+
+/-- 6. The writer is injective (on all of `Nat`). -/
+theorem ulebEncode_injective (a b : Nat) (h : ulebEncode a = ulebEncode b) : a = b := by
+  induction a using Nat.strongRecOn generalizing b with
+  | _ a ih =>
+    by_cases ha : a < 128 <;> by_cases hb : b < 128
+    · rw [ulebEncode_lt ha, ulebEncode_lt hb] at h
+      have := congrArg UInt8.toNat (List.cons.inj h).1
+      rwa [toNat_ofNat_lt (by omega), toNat_ofNat_lt (by omega)] at this
+    · rw [ulebEncode_lt ha, ulebEncode_ge hb] at h
+      have := congrArg UInt8.toNat (List.cons.inj h).1
+      rw [toNat_ofNat_lt (by omega), toNat_ofNat_lt (by omega)] at this
+      omega
+    · rw [ulebEncode_ge ha, ulebEncode_lt hb] at h
+      have := congrArg UInt8.toNat (List.cons.inj h).1
+      rw [toNat_ofNat_lt (by omega), toNat_ofNat_lt (by omega)] at this
+      omega
+    · rw [ulebEncode_ge ha, ulebEncode_ge hb] at h
+      have h1 := congrArg UInt8.toNat (List.cons.inj h).1
+      rw [toNat_ofNat_lt (by omega), toNat_ofNat_lt (by omega)] at h1
+      have h2 := ih (a / 128) (by omega) (b / 128) (List.cons.inj h).2
+      omega
+
+/-! ### `uleb32` / `nonzeroUleb64` corollaries -/
+
+/-- 8.1 -/
+theorem uleb32_encode (n : Nat) (hn : n < 2 ^ 32) (rest : Bytes) :
+    uleb32 (ulebEncode n ++ rest) = .ok (n, rest) := by
+  unfold uleb32
+  rw [uleb64_encode n (by omega) rest]
+  simp only [if_pos hn]
+
+/-- 8.2 -/
+theorem uleb32_canonical (bs rest : Bytes) (n : Nat) (h : uleb32 bs = .ok (n, rest)) :
+    n < 2 ^ 32 ∧ bs = ulebEncode n ++ rest := by
+  unfold uleb32 at h
+  split at h
+  · rename_i m r heq
+    split at h
+    · rename_i hm
+      simp only [Except.ok.injEq, Prod.mk.injEq] at h
+      obtain ⟨rfl, rfl⟩ := h
+      exact ⟨hm, (uleb64_canonical bs _ _ heq).2⟩
+    · cases h
+  · cases h
+
+/-- 8.3 -/
+theorem uleb32_prefix_incomplete (n : Nat) (hn : n < 2 ^ 32) (k : Nat)
+    (hk : k < (ulebEncode n).length) :
+    uleb32 ((ulebEncode n).take k) = .error .incomplete := by
+  unfold uleb32
+  rw [uleb64_prefix_incomplete n (by omega) k hk]
+
+theorem uleb32_consumes (bs rest : Bytes) (n : Nat) (h : uleb32 bs = .ok (n, rest)) :
+    ∃ pre, bs = pre ++ rest ∧ 1 ≤ pre.length ∧ pre.length ≤ 5 := by
+  obtain ⟨hn, hbs⟩ := uleb32_canonical bs rest n h
+  exact ⟨ulebEncode n, hbs, ulebEncode_length_pos n, ulebEncode_length_le_of_lt 4 n (by omega)⟩
+
+theorem nonzeroUleb64_encode (n : Nat) (hn : n < 2 ^ 64) (h0 : n ≠ 0) (rest : Bytes) :
+    nonzeroUleb64 (ulebEncode n ++ rest) = .ok (n, rest) := by
+  unfold nonzeroUleb64
+  rw [uleb64_encode n hn rest]
+  simp only [if_neg h0]
+
+theorem nonzeroUleb64_zero (rest : Bytes) :
+    nonzeroUleb64 (ulebEncode 0 ++ rest) = .error .unexpectedZero := by
+  unfold nonzeroUleb64
+  rw [uleb64_encode 0 (by omega) rest]
+  simp
+
+theorem nonzeroUleb64_canonical (bs rest : Bytes) (n : Nat)
+    (h : nonzeroUleb64 bs = .ok (n, rest)) :
+    0 < n ∧ n < 2 ^ 64 ∧ bs = ulebEncode n ++ rest := by
+  unfold nonzeroUleb64 at h
+  split at h
+  · rename_i m r heq
+    split at h
+    · cases h
+    · rename_i hm
+      simp only [Except.ok.injEq, Prod.mk.injEq] at h
+      obtain ⟨rfl, rfl⟩ := h
+      have := uleb64_canonical bs _ _ heq
+      exact ⟨by omega, this.1, this.2⟩
+  · cases h
+
+/-! ### Signed -/
+
+/-- Sign extension of a 7-bit group. -/
+def sext7 (x : Nat) : Int := if x < 64 then (x : Int) else (x : Int) - 128
+
+theorem u8_and_7f (x : Nat) (hx : x < 256) : UInt8.ofNat x &&& 0x7f = UInt8.ofNat (x % 128) := by
+  have key : ∀ k : Fin 256, UInt8.ofNat k.val &&& 0x7f = UInt8.ofNat (k.val % 128) := by
+    decide +kernel
+  exact key ⟨x, hx⟩
+
+theorem u8_or_80 (x : Nat) (hx : x < 256) :
+    UInt8.ofNat x ||| 0x80 = UInt8.ofNat (x % 128 + 128) := by
+  have key : ∀ k : Fin 256, UInt8.ofNat k.val ||| 0x80 = UInt8.ofNat (k.val % 128 + 128) := by
+    decide +kernel
+  exact key ⟨x, hx⟩
+
+theorem slebEncode_small {v : Int} (h : -64 ≤ v ∧ v < 64) :
+    slebEncode v = [UInt8.ofNat (v % 128).toNat] := by
+  rw [slebEncode]
+  simp only [Int.shiftRight_eq_div_pow]
+  rw [if_pos (by omega), u8_and_7f _ (by omega)]
+  congr 2; omega
+
+theorem slebEncode_big {v : Int} (h : ¬(-64 ≤ v ∧ v < 64)) :
+    slebEncode v = UInt8.ofNat ((v % 128).toNat + 128) :: slebEncode (v / 128) := by
+  rw [slebEncode]
+  simp only [Int.shiftRight_eq_div_pow]
+  rw [if_neg (by omega), u8_or_80 _ (by omega)]
+  congr 2
+  · congr 1; omega
+  · omega
+
+/-- `-1 << s` as a 64-bit pattern. -/
+theorem mask_eq (s : Nat) (hs : s ≤ 64) : ((2 ^ 64 - 1) <<< s) % 2 ^ 64 = 2 ^ 64 - 2 ^ s := by
+  have hB : 1 ≤ 2 ^ s := Nat.one_le_two_pow
+  have hBA : 2 ^ s ≤ 2 ^ 64 := Nat.pow_le_pow_right (by omega) hs
+  have e : (2 ^ 64 - 1) * 2 ^ s = (2 ^ 64 - 2 ^ s) + (2 ^ s - 1) * 2 ^ 64 := by
+    rw [Nat.sub_mul, Nat.sub_mul, Nat.one_mul, Nat.one_mul, Nat.mul_comm (2 ^ s) (2 ^ 64)]
+    have : 2 ^ 64 ≤ 2 ^ 64 * 2 ^ s := Nat.le_mul_of_pos_right _ hB
+    omega
+  rw [Nat.shiftLeft_eq, e, Nat.add_mul_mod_self_right]
+  exact Nat.mod_eq_of_lt (by omega)
+
+theorem or_mask (r s : Nat) (hs : s ≤ 64) (hr : r < 2 ^ s) :
+    r ||| (2 ^ 64 - 2 ^ s) = r + (2 ^ 64 - 2 ^ s) := by
+  have e : 2 ^ 64 - 2 ^ s = (2 ^ (64 - s) - 1) <<< s := by
+    rw [Nat.shiftLeft_eq, Nat.sub_mul, Nat.one_mul, ← Nat.pow_add, Nat.sub_add_cancel hs]
+  rw [e, or_shift _ _ _ hr, Nat.shiftLeft_eq, Nat.mul_comm]
+
+/-- `slebLoop` on a non-empty input: bit operations replaced by arithmetic. -/
+theorem slebLoop_cons_raw (b : UInt8) (rest : Bytes) (res shift : Nat) (prev : UInt8)
+    (h : res < 2 ^ shift) :
+    slebLoop (b :: rest) res shift prev =
+      if b.toNat < 128 then
+        if shift + 7 > 64 ∧ b.toNat ≠ 0 ∧ b.toNat ≠ 0x7f then .error .tooLarge
+        else if shift + 7 > 7 ∧ ((b.toNat = 0 ∧ prev.toNat % 128 < 64)
+                                ∨ (b.toNat = 0x7f ∧ 64 ≤ prev.toNat % 128)) then .error .overlong
+        else if shift + 7 < 64 ∧ 64 ≤ b.toNat % 128 then
+          .ok (toI64 ((res + 2 ^ shift * (b.toNat % 128)) % 2 ^ 64
+                        ||| (((2 ^ 64 - 1) <<< (shift + 7)) % 2 ^ 64)), rest)
+        else .ok (toI64 ((res + 2 ^ shift * (b.toNat % 128)) % 2 ^ 64), rest)
+      else if shift + 7 > 64 then .error .tooLarge
+      else slebLoop rest ((res + 2 ^ shift * (b.toNat % 128)) % 2 ^ 64) (shift + 7) b := by
+  rw [slebLoop]
+  simp only [and_7f, and_80, and_40, and_40_pos, or_shift _ _ _ h]
+
+/-- The value returned at a final byte `b < 128`, when not rejected as too large. -/
+theorem sleb_final (res shift b : Nat) (hs : Sh shift) (hr : res < 2 ^ shift) (hb : b < 128)
+    (h64 : ¬(shift = 63 ∧ b ≠ 0 ∧ b ≠ 0x7f)) :
+    (if shift + 7 < 64 ∧ 64 ≤ b % 128 then
+        toI64 ((res + 2 ^ shift * (b % 128)) % 2 ^ 64 ||| (((2 ^ 64 - 1) <<< (shift + 7)) % 2 ^ 64))
+      else toI64 ((res + 2 ^ shift * (b % 128)) % 2 ^ 64))
+      = (res : Int) + 2 ^ shift * sext7 b := by
+  have hlt : res + 2 ^ shift * (b % 128) < 2 ^ (shift + 7) := by sh_cases hs <;> omega
+  split
+  · rename_i hc
+    have h56 : shift + 7 ≤ 64 := by omega
+    have hp : 2 ^ (shift + 7) ≤ 2 ^ 64 := Nat.pow_le_pow_right (by omega) h56
+    rw [Nat.mod_eq_of_lt (by omega), mask_eq _ h56, or_mask _ _ h56 hlt]
+    unfold toI64 sext7
+    sh_cases hs <;> (split <;> split <;> omega)
+  · rename_i hc
+    unfold toI64 sext7
+    sh_cases hs <;> (split <;> split <;> omega)
+
+/-- `slebLoop` on a non-empty input, in arithmetic form (no bit operations, no wrap-around). -/
+theorem slebLoop_cons (b : UInt8) (rest : Bytes) (res shift : Nat) (prev : UInt8)
+    (hs : Sh shift) (hr : res < 2 ^ shift) :
+    slebLoop (b :: rest) res shift prev =
+      if b.toNat < 128 then
+        if shift = 63 ∧ b.toNat ≠ 0 ∧ b.toNat ≠ 0x7f then .error .tooLarge
+        else if shift ≠ 0 ∧ ((b.toNat = 0 ∧ prev.toNat % 128 < 64)
+                              ∨ (b.toNat = 0x7f ∧ 64 ≤ prev.toNat % 128)) then .error .overlong
+        else .ok ((res : Int) + 2 ^ shift * sext7 b.toNat, rest)
+      else if shift = 63 then .error .tooLarge
+      else slebLoop rest (res + 2 ^ shift * (b.toNat % 128)) (shift + 7) b := by
+  rw [slebLoop_cons_raw _ _ _ _ _ hr]
+  have c1 : shift + 7 > 64 ↔ shift = 63 := by unfold Sh at hs; omega
+  have c2 : shift + 7 > 7 ↔ shift ≠ 0 := by omega
+  simp only [c1, c2]
+  by_cases hb : b.toNat < 128
+  · simp only [if_pos hb]
+    by_cases h1 : shift = 63 ∧ b.toNat ≠ 0 ∧ b.toNat ≠ 0x7f
+    · simp only [if_pos h1]
+    · simp only [if_neg h1]
+      split
+      · rfl
+      · rw [← sleb_final res shift b.toNat hs hr hb h1]
+        split <;> rfl
+  · simp only [if_neg hb]
+    by_cases h1 : shift = 63
+    · simp only [if_pos h1]
+    · simp only [if_neg h1]
+      rw [Nat.mod_eq_of_lt]
+      have := b.toNat_lt
+      sh_cases hs <;> omega
+
+theorem slebLoop_nil (res shift : Nat) (prev : UInt8) :
+    slebLoop [] res shift prev = .error .incomplete := by
+  rw [slebLoop]
+
+/-- The link between the byte before a final byte and the value of that final byte that the
+    writer guarantees (and the reader's `Overlong` test demands). -/
+def PrevOk (shift : Nat) (prev : UInt8) (v : Int) : Prop :=
+  shift = 0 ∨ ((v = 0 → 64 ≤ prev.toNat % 128) ∧ (v = -1 → prev.toNat % 128 < 64))
+
+/-- Generalised round trip. -/
+theorem slebLoop_encode : ∀ (m : Nat) (v : Int), v.natAbs = m →
+    ∀ (res shift : Nat) (prev : UInt8) (rest : Bytes), Sh shift → res < 2 ^ shift →
+    -2 ^ 63 ≤ (res : Int) + 2 ^ shift * v → (res : Int) + 2 ^ shift * v < 2 ^ 63 →
+    PrevOk shift prev v →
+    slebLoop (slebEncode v ++ rest) res shift prev = .ok ((res : Int) + 2 ^ shift * v, rest) := by
+  intro m
+  induction m using Nat.strongRecOn with
+  | _ m ih =>
+    intro v hv res shift prev rest hs hr hlo hhi hp
+    by_cases hsm : -64 ≤ v ∧ v < 64
+    · have hb : (v % 128).toNat < 128 := by omega
+      have hsx : sext7 (v % 128).toNat = v := by unfold sext7; split <;> omega
+      rw [slebEncode_small hsm, List.singleton_append, slebLoop_cons _ _ _ _ _ hs hr,
+        toNat_ofNat_lt (by omega), if_pos hb, hsx]
+      have h1 : ¬(shift = 63 ∧ (v % 128).toNat ≠ 0 ∧ (v % 128).toNat ≠ 0x7f) := by
+        rintro ⟨rfl, h1, h2⟩; omega
+      have h2 : ¬(shift ≠ 0 ∧ (((v % 128).toNat = 0 ∧ prev.toNat % 128 < 64)
+          ∨ ((v % 128).toNat = 0x7f ∧ 64 ≤ prev.toNat % 128))) := by
+        rintro ⟨h0, h⟩
+        rcases hp with hp | ⟨hp0, hp1⟩
+        · exact h0 hp
+        · omega
+      rw [if_neg h1, if_neg h2]
+    · have hb : (v % 128).toNat + 128 < 256 := by omega
+      have h63 : shift ≠ 63 := by rintro rfl; omega
+      have hs' : Sh (shift + 7) := by unfold Sh at hs ⊢; omega
+      have e1 : ((v % 128).toNat + 128) % 128 = (v % 128).toNat := by omega
+      rw [slebEncode_big hsm, List.cons_append, slebLoop_cons _ _ _ _ _ hs hr,
+        toNat_ofNat_lt hb, if_neg (by omega), if_neg h63, e1]
+      have hp' : PrevOk (shift + 7) (UInt8.ofNat ((v % 128).toNat + 128)) (v / 128) := by
+        right; rw [toNat_ofNat_lt hb]; omega
+      sh_cases hs
+      all_goals first
+        | omega
+        | (rw [ih (v / 128).natAbs (by omega) (v / 128) rfl _ _ _ rest hs' (by omega) (by omega)
+            (by omega) hp']
+           congr 2; omega)
+
+/-- 7.1 Round trip. -/
+theorem sleb64_encode (v : Int) (hlo : -2 ^ 63 ≤ v) (hhi : v < 2 ^ 63) (rest : Bytes) :
+    sleb64 (slebEncode v ++ rest) = .ok (v, rest) := by
+  have := slebLoop_encode _ v rfl 0 0 0 rest (by unfold Sh; omega) (by omega) (by omega) (by omega)
+    (Or.inl rfl)
+  simpa [sleb64] using this
+
+theorem sext7_range (b : Nat) (hb : b < 128) : -64 ≤ sext7 b ∧ sext7 b < 64 := by
+  unfold sext7; split <;> omega
+
+theorem sext7_mod (b : Nat) (hb : b < 128) : (sext7 b % 128).toNat = b := by
+  unfold sext7; split <;> omega
+
+/-- Generalised canonicity. -/
+theorem slebLoop_canonical (bs : Bytes) : ∀ (res shift : Nat) (prev : UInt8) (v : Int)
+    (rest : Bytes), Sh shift → res < 2 ^ shift → slebLoop bs res shift prev = .ok (v, rest) →
+    ∃ u : Int, v = (res : Int) + 2 ^ shift * u ∧ -2 ^ 63 ≤ v ∧ v < 2 ^ 63 ∧
+      bs = slebEncode u ++ rest ∧ PrevOk shift prev u := by
+  induction bs with
+  | nil => intro res shift prev v rest _ _ h; simp [slebLoop] at h
+  | cons b bs ih =>
+    intro res shift prev v rest hs hr h
+    rw [slebLoop_cons _ _ _ _ _ hs hr] at h
+    by_cases hb : b.toNat < 128
+    · rw [if_pos hb] at h
+      split at h
+      · cases h
+      · split at h
+        · cases h
+        · rename_i h1 h2
+          simp only [Except.ok.injEq, Prod.mk.injEq] at h
+          obtain ⟨rfl, rfl⟩ := h
+          have hr7 := sext7_range b.toNat hb
+          refine ⟨sext7 b.toNat, rfl, ?_, ?_, ?_, ?_⟩
+          · unfold sext7 at *; sh_cases hs <;> (split <;> omega)
+          · unfold sext7 at *; sh_cases hs <;> (split <;> omega)
+          · rw [slebEncode_small hr7, sext7_mod _ hb, UInt8.ofNat_toNat]; rfl
+          · by_cases h0 : shift = 0
+            · exact Or.inl h0
+            · right
+              unfold sext7; split <;> omega
+    · rw [if_neg hb] at h
+      split at h
+      · cases h
+      · rename_i h63
+        have hs' : Sh (shift + 7) := by unfold Sh at hs ⊢; omega
+        have hb256 := b.toNat_lt
+        have hlt : res + 2 ^ shift * (b.toNat % 128) < 2 ^ (shift + 7) := by
+          sh_cases hs <;> omega
+        obtain ⟨u, hv, hlo, hhi, hbs, hp⟩ := ih _ _ _ _ _ hs' hlt h
+        have hp' : (u = 0 → 64 ≤ b.toNat % 128) ∧ (u = -1 → b.toNat % 128 < 64) := by
+          rcases hp with hp | hp
+          · omega
+          · exact hp
+        refine ⟨(b.toNat % 128 : Nat) + 128 * u, ?_, hlo, hhi, ?_, ?_⟩
+        · rw [hv]; sh_cases hs <;> omega
+        · have e0 : ¬(-64 ≤ ((b.toNat % 128 : Nat) : Int) + 128 * u
+              ∧ ((b.toNat % 128 : Nat) : Int) + 128 * u < 64) := by omega
+          have e1 : ((((b.toNat % 128 : Nat) : Int) + 128 * u) % 128).toNat + 128 = b.toNat := by
+            omega
+          have e2 : (((b.toNat % 128 : Nat) : Int) + 128 * u) / 128 = u := by omega
+          rw [slebEncode_big e0, e1, e2, UInt8.ofNat_toNat, hbs]; rfl
+        · by_cases h0 : shift = 0
+          · exact Or.inl h0
+          · right; omega
+
+/-- 7.2 Canonicity. -/
+theorem sleb64_canonical (bs rest : Bytes) (v : Int) (h : sleb64 bs = .ok (v, rest)) :
+    -2 ^ 63 ≤ v ∧ v < 2 ^ 63 ∧ bs = slebEncode v ++ rest := by
+  obtain ⟨u, hv, hlo, hhi, hbs, _⟩ :=
+    slebLoop_canonical bs 0 0 0 v rest (by unfold Sh; omega) (by omega) h
+  have : v = u := by omega
+  subst this
+  exact ⟨hlo, hhi, hbs⟩
+
+/-- Generalised prefix incompleteness. -/
+theorem slebLoop_prefix : ∀ (m : Nat) (v : Int), v.natAbs = m →
+    ∀ (res shift k : Nat) (prev : UInt8), Sh shift → res < 2 ^ shift →
+    -2 ^ 63 ≤ (res : Int) + 2 ^ shift * v → (res : Int) + 2 ^ shift * v < 2 ^ 63 →
+    k < (slebEncode v).length →
+    slebLoop ((slebEncode v).take k) res shift prev = .error .incomplete := by
+  intro m
+  induction m using Nat.strongRecOn with
+  | _ m ih =>
+    intro v hv res shift k prev hs hr hlo hhi hk
+    by_cases hsm : -64 ≤ v ∧ v < 64
+    · rw [slebEncode_small hsm] at hk ⊢
+      have : k = 0 := by simpa using hk
+      subst this
+      exact slebLoop_nil _ _ _
+    · rw [slebEncode_big hsm] at hk ⊢
+      cases k with
+      | zero => exact slebLoop_nil _ _ _
+      | succ k =>
+        have hb : (v % 128).toNat + 128 < 256 := by omega
+        have h63 : shift ≠ 63 := by rintro rfl; omega
+        have hs' : Sh (shift + 7) := by unfold Sh at hs ⊢; omega
+        have e1 : ((v % 128).toNat + 128) % 128 = (v % 128).toNat := by omega
+        rw [List.take_succ_cons, slebLoop_cons _ _ _ _ _ hs hr,
+          toNat_ofNat_lt hb, if_neg (by omega), if_neg h63, e1]
+        have hk' : k < (slebEncode (v / 128)).length := by simpa using hk
+        sh_cases hs
+        all_goals first
+          | omega
+          | exact ih (v / 128).natAbs (by omega) (v / 128) rfl _ _ _ _ hs' (by omega) (by omega)
+              (by omega) hk'
+
+/-- 7.3 Every proper prefix of an encoding is `Incomplete`. -/
+theorem sleb64_prefix_incomplete (v : Int) (hlo : -2 ^ 63 ≤ v) (hhi : v < 2 ^ 63) (k : Nat)
+    (hk : k < (slebEncode v).length) :
+    sleb64 ((slebEncode v).take k) = .error .incomplete :=
+  slebLoop_prefix _ v rfl 0 0 k 0 (by unfold Sh; omega) (by omega) (by omega) (by omega) hk
+
+theorem slebEncode_length_pos (v : Int) : 1 ≤ (slebEncode v).length := by
+  by_cases h : -64 ≤ v ∧ v < 64
+  · rw [slebEncode_small h]; simp
+  · rw [slebEncode_big h]; simp
+
+theorem slebEncode_length_le_of (k : Nat) : ∀ v : Int,
+    -((2 ^ (7 * k + 6) : Nat) : Int) ≤ v → v < ((2 ^ (7 * k + 6) : Nat) : Int) →
+    (slebEncode v).length ≤ k + 1 := by
+  induction k with
+  | zero =>
+    intro v h1 h2
+    rw [slebEncode_small (by omega)]; simp
+  | succ k ih =>
+    intro v h1 h2
+    by_cases h : -64 ≤ v ∧ v < 64
+    · rw [slebEncode_small h]; simp
+    · rw [slebEncode_big h, List.length_cons]
+      have e : 2 ^ (7 * (k + 1) + 6) = 128 * 2 ^ (7 * k + 6) := by
+        rw [show 7 * (k + 1) + 6 = 7 + (7 * k + 6) by omega, Nat.pow_add]
+      rw [e] at h1 h2
+      have := ih (v / 128) (by omega) (by omega)
+      omega
+
+/-- Encodings of `i64` values are 1 to 10 bytes long. -/
+theorem slebEncode_length_le (v : Int) (hlo : -2 ^ 63 ≤ v) (hhi : v < 2 ^ 63) :
+    1 ≤ (slebEncode v).length ∧ (slebEncode v).length ≤ 10 :=
+  ⟨slebEncode_length_pos v, slebEncode_length_le_of 9 v (by omega) (by omega)⟩
+
+/-- 7.4 Progress, precise form. -/
+theorem sleb64_consumes_pre (bs rest : Bytes) (v : Int) (h : sleb64 bs = .ok (v, rest)) :
+    ∃ pre, bs = pre ++ rest ∧ 1 ≤ pre.length ∧ pre.length ≤ 10 := by
+  obtain ⟨hlo, hhi, hbs⟩ := sleb64_canonical bs rest v h
+  exact ⟨slebEncode v, hbs, slebEncode_length_le v hlo hhi⟩
+
+/-- 7.4 Progress. -/
+theorem sleb64_consumes (bs rest : Bytes) (v : Int) (h : sleb64 bs = .ok (v, rest)) :
+    rest.length < bs.length := by
+  obtain ⟨pre, rfl, h1, _⟩ := sleb64_consumes_pre bs rest v h
+  rw [List.length_append]; omega
+
+/-- The signed writer is injective on the `i64` range. -/
+theorem slebEncode_injective (a b : Int) (ha : -2 ^ 63 ≤ a ∧ a < 2 ^ 63)
+    (hb : -2 ^ 63 ≤ b ∧ b < 2 ^ 63) (h : slebEncode a = slebEncode b) : a = b := by
+  have h1 := sleb64_encode a ha.1 ha.2 []
+  have h2 := sleb64_encode b hb.1 hb.2 []
+  rw [h, h2] at h1
+  simp only [Except.ok.injEq, Prod.mk.injEq, and_true] at h1
+  exact h1.symm
+
+/-! ### Sanity checks -/
+
+/-- Decidable equality of parse results, local to this file (only used by the `decide` checks). -/
+@[instance_reducible] def exceptDecEq {ε α : Type} [DecidableEq ε] [DecidableEq α] : DecidableEq (Except ε α)
+  | .ok a, .ok b => if h : a = b then isTrue (h ▸ rfl) else isFalse (fun h' => h (Except.ok.inj h'))
+  | .error a, .error b =>
+    if h : a = b then isTrue (h ▸ rfl) else isFalse (fun h' => h (Except.error.inj h'))
+  | .ok _, .error _ => isFalse nofun
+  | .error _, .ok _ => isFalse nofun
+
+attribute [local instance] exceptDecEq
+
+example : uleb64 [0x81, 0x00] = .error .overlong := by decide
+example : uleb64 (List.replicate 9 0xff ++ [0x01]) = .ok (2 ^ 64 - 1, []) := by decide
+example : uleb64 (List.replicate 9 0xff ++ [0x02]) = .error .tooLarge := by decide
+example : uleb64 [0xff] = .error .incomplete := by decide
+example : uleb64 [0x80, 0x01, 0x07] = .ok (128, [0x07]) := by decide
+example : uleb32 [0xff, 0xff, 0xff, 0xff, 0x1f] = .error .tooLarge := by decide
+example : uleb32 [0xff, 0xff, 0xff, 0xff, 0x0f] = .ok (2 ^ 32 - 1, []) := by decide
+example : nonzeroUleb64 [0x00] = .error .unexpectedZero := by decide
+example : sleb64 [0x7f] = .ok (-1, []) := by decide
+example : sleb64 [0x80, 0x7f] = .ok (-128, []) := by decide
+example : sleb64 [0x3f] = .ok (63, []) := by decide
+example : sleb64 [0x40] = .ok (-64, []) := by decide
+example : sleb64 [0xff, 0x3f] = .ok (8191, []) := by decide
+example : sleb64 [0x80, 0x40] = .ok (-8192, []) := by decide
+example : sleb64 (List.replicate 9 0xff ++ [0x00]) = .ok (2 ^ 63 - 1, []) := by decide
+example : sleb64 (List.replicate 9 0x80 ++ [0x7f]) = .ok (-2 ^ 63, []) := by decide
+example : sleb64 (List.replicate 9 0xff ++ [0x01]) = .error .tooLarge := by decide
+example : sleb64 (List.replicate 9 0x80 ++ [0x7e]) = .error .tooLarge := by decide
+example : sleb64 [0xbf, 0x00] = .error .overlong := by decide
+example : sleb64 [0x81, 0xff, 0x7f] = .error .overlong := by decide
+example : sleb64 [0x90] = .error .incomplete := by decide
 
 end AmVerif.Leb
